@@ -330,6 +330,9 @@ func stageFault(spec *stageSpec, id, name, phase, md, outFile string, result *st
 			os.WriteFile(filepath.Join(md, outFile), b, 0o644)
 		}
 		os.Exit(3)
+	case "null_value":
+		// the job writes the JSON value null where an object is expected
+		*result = "null"
 	case "truncated":
 		*result = (*result)[:len(*result)/2]
 	case "invalid":
